@@ -104,7 +104,15 @@ class WSPeer(BasePeer):
 
         def go():
             self.open_time = self.k.now
-            conn.write(resp + after)
+            raw = self.cfg.get("wire_raw")  # behind TLS: which part goes onto the wire unencrypted
+            wr = getattr(conn, "write_raw", conn.write)
+            if raw == "response":
+                wr(resp + after)
+            elif raw == "after":
+                conn.write(resp)
+                wr(after)
+            else:
+                conn.write(resp + after)
             if rc.get("then") in ("eof", "reset"):
                 conn.link.finish(rc["then"])
                 return
